@@ -136,11 +136,15 @@ func (s *sliceMachine) Discard(ctx context.Context, task *Task) {
 		return
 	}
 	// s exclusively owns task's state during this time, so this does not race
-	// with anything else.
-	task.Set(TaskLost)
+	// with anything else. The task is marked lost only after the worker has
+	// discarded its output: once it is LOST, an evaluator may run it again,
+	// and a Worker.Run that overtook Worker.Discard would find the old output
+	// in place (a no-op), only to have it discarded right afterwards while
+	// the driver believes the task to be OK.
 	if err := s.RetryCall(ctx, "Worker.Discard", task.Name, nil); err != nil {
 		log.Error.Printf("error discarding %v: %v", task, err)
 	}
+	task.Set(TaskLost)
 }
 
 // Go manages a sliceMachine: it polls stats at regular intervals and
